@@ -28,9 +28,8 @@ def Inverse (root : Node) : Prop :=
 
 /-- a backslash directly followed by `.` or `]` -/
 def hasBackslashDot : Str → Bool
-  | '\\' :: c :: r => c == '.' || c == ']' || hasBackslashDot (c :: r)
-  | _ :: r => hasBackslashDot r
   | [] => false
+  | c :: r => (c == '\\' && (r.head? == some '.' || r.head? == some ']')) || hasBackslashDot r
 
 def endsWithBackslash (s : Str) : Bool := s.getLast? == some '\\'
 
